@@ -115,12 +115,14 @@ Proof.
   destruct bracket_cases as [(_ & -> & C) | (_ & -> & NB)].
   - change ((cLBR :: h ++ [cRBR]) ++ pt) with (cLBR :: (h ++ [cRBR]) ++ pt).
     rewrite <- app_assoc. change ([cRBR] ++ pt) with (cRBR :: pt).
-    rewrite !mem_cons, !mem_app, !mem_cons. rewrite byte_eqb_refl.
-    replace (byte_eqb cRBR cLBR) with false by reflexivity.
-    rewrite byte_eqb_refl, !orb_true_r. simpl xorb. cbv iota.
+    assert (mem cLBR (cLBR :: h ++ cRBR :: pt) = true) as M1 by reflexivity.
+    assert (mem cRBR (cLBR :: h ++ cRBR :: pt) = true) as M2.
+    { rewrite mem_cons, mem_app, mem_cons, byte_eqb_refl, !orb_true_r. reflexivity. }
+    rewrite M1, M2. cbv beta iota delta [xorb].
     change (partition cLBR (cLBR :: h ++ cRBR :: pt)) with (@nil byte, true, h ++ cRBR :: pt).
-    cbn [snd]. rewrite (partition_app cRBR h pt) by (apply h_no; reflexivity).
-    cbn [fst]. exact C.
+    cbv beta iota delta [snd].
+    rewrite partition_app by (apply h_no; reflexivity).
+    cbv beta iota delta [fst]. exact C.
   - rewrite !mem_app, NB, (h_no cRBR) by reflexivity.
     rewrite (pt_no cLBR), (pt_no cRBR) by reflexivity. reflexivity.
 Qed.
@@ -138,13 +140,13 @@ Proof.
   assert (dec_of_Z p <> []) as DNE by (apply dec_of_Z_spec; destruct WF; lia).
   rewrite hostport_eq. fold pt. unfold hostinfo.
   assert (mem cAT (bracket h ++ pt) = false) as NA.
-  { apply (mem_false_of nl_char); [reflexivity|]. rewrite <- hostport_eq. apply hp_nl. }
+  { apply (mem_false_of nl_char); [reflexivity|]. pose proof hp_nl as H. rewrite hostport_eq in H. exact H. }
   rewrite (rpartition_notin _ _ NA).
   destruct bracket_cases as [(_ & -> & _) | (NC & -> & NB)].
   - change ((cLBR :: h ++ [cRBR]) ++ pt) with (cLBR :: (h ++ [cRBR]) ++ pt).
     rewrite <- app_assoc. change ([cRBR] ++ pt) with (cRBR :: pt).
     change (partition cLBR (cLBR :: h ++ cRBR :: pt)) with (@nil byte, true, h ++ cRBR :: pt).
-    cbv iota beta. rewrite (partition_app cRBR h pt) by (apply h_no; reflexivity).
+    cbv iota beta. rewrite partition_app by (apply h_no; reflexivity).
     destruct pt_cases as [[-> ->] | [-> ->]].
     + reflexivity.
     + change (partition cCOLON (cCOLON :: dec_of_Z p)) with (@nil byte, true, dec_of_Z p).
@@ -160,7 +162,7 @@ Qed.
 Lemma hp_hostname : hostname (hostport s h p) = Some h.
 Proof.
   unfold hostname. rewrite hp_hostinfo. cbn [fst].
-  destruct h as [|x t] eqn:Eh; [destruct WF; congruence|]. rewrite <- Eh. cbn [is_nil].
+  destruct (is_nil h) eqn:N; [apply is_nil_true in N; destruct WF; congruence|].
   pose proof (wf_lower _ _ _ WF) as L.
   destruct (partition cPCT h) as [[a pc] zone] eqn:P. cbn [fst] in L. rewrite L.
   destruct (partition_spec _ _ _ _ _ P) as [_ S]. destruct pc.
@@ -182,3 +184,98 @@ Qed.
 
 End Dest.
 End WithCodec.
+
+(* ---------- the splitter on a URL built from components ---------- *)
+Lemma split_scheme_http s rest : http_scheme s -> split_scheme (s ++ cCOLON :: rest) = (s, rest).
+Proof.
+  intros [-> | ->]; unfold split_scheme; rewrite partition_app by reflexivity; reflexivity.
+Qed.
+
+Lemma split_params_https p1 : split_params_of s_https p1 = split_params_of s_http p1.
+Proof. reflexivity. Qed.
+
+Lemma starts_slash path : starts_with [cSLASH] path = true -> exists t, path = cSLASH :: t.
+Proof.
+  destruct path as [|c t]; simpl; [discriminate|]. rewrite andb_true_r. intros H.
+  apply byte_eqb_eq in H. subst. eauto.
+Qed.
+
+Lemma urlsplit_build s nl path :
+  http_scheme s -> forallb nl_char nl = true -> netloc_ok nl = true ->
+  starts_with [cSLASH] path = true -> forallb path_char path = true ->
+  urlsplit (s ++ s_sep ++ nl ++ path) =
+  let '(p1, q, f) := split_fq path in Some (s, nl, p1, q, f).
+Proof.
+  intros Hs Hnl Hok Hsl Hpc. unfold urlsplit.
+  assert (lstrip_c0 (s ++ s_sep ++ nl ++ path) = s ++ s_sep ++ nl ++ path) as E1
+    by (destruct Hs as [-> | ->]; reflexivity).
+  rewrite E1.
+  assert (remove_unsafe (s ++ s_sep ++ nl ++ path) = s ++ s_sep ++ nl ++ path) as E2.
+  { apply filter_id. rewrite !forallb_app.
+    apply andb_true_iff; split; [|apply andb_true_iff; split; [|apply andb_true_iff; split]].
+    - destruct Hs as [-> | ->]; reflexivity.
+    - reflexivity.
+    - apply (forallb_imp nl_char _); [vm_compute; reflexivity | exact Hnl].
+    - apply (forallb_imp path_char _); [vm_compute; reflexivity | exact Hpc]. }
+  rewrite E2.
+  change (s ++ s_sep ++ nl ++ path) with (s ++ cCOLON :: (cSLASH :: cSLASH :: nl ++ path)).
+  rewrite (split_scheme_http _ _ Hs).
+  change (urlsplit_rest s (cSLASH :: cSLASH :: nl ++ path)) with
+    (let '(netloc, rest') := span (fun b => negb (is_delim b)) (nl ++ path) in
+     if netloc_ok netloc then let '(p, q, f) := split_fq rest' in Some (s, netloc, p, q, f) else None).
+  rewrite span_app.
+  - rewrite Hok. reflexivity.
+  - apply (forallb_imp nl_char _); [vm_compute; reflexivity | exact Hnl].
+  - destruct (starts_slash _ Hsl) as [t ->]. reflexivity.
+Qed.
+
+Lemma port_tail_http p : port_tail s_http p = if (80 =? p)%Z then [] else cCOLON :: dec_of_Z p.
+Proof. reflexivity. Qed.
+Lemma port_tail_https p : port_tail s_https p = if (443 =? p)%Z then [] else cCOLON :: dec_of_Z p.
+Proof. reflexivity. Qed.
+
+Section Roundtrip.
+Variable ace : bytes -> option str.
+Variable uenc : str -> option bytes.
+
+Theorem parse_unparse s h p path :
+  wf_dest ace s h p -> wf_path path ->
+  parse ace uenc (unparse s h p path) = Some (s, h, p, path).
+Proof.
+  intros WF (Hsl & Hpc & Hre).
+  pose proof (wf_scheme _ _ _ _ WF) as Hs.
+  assert (all_ascii h = true) as Ah.
+  { apply (forallb_imp host_char is_ascii); [vm_compute; reflexivity | apply WF]. }
+  unfold parse, unparse.
+  assert (all_ascii (s ++ s_sep ++ hostport s h p ++ path) = true) as AA.
+  { rewrite !all_ascii_app.
+    apply andb_true_iff; split; [|apply andb_true_iff; split; [|apply andb_true_iff; split]].
+    - destruct Hs as [-> | ->]; reflexivity.
+    - reflexivity.
+    - apply (forallb_imp nl_char is_ascii); [vm_compute; reflexivity | apply (hp_nl ace _ _ _ WF)].
+    - apply (forallb_imp path_char is_ascii); [vm_compute; reflexivity | exact Hpc]. }
+  rewrite AA. cbn [negb]. unfold urlparse.
+  rewrite (urlsplit_build s (hostport s h p) path Hs (hp_nl ace _ _ _ WF) (hp_netloc_ok ace _ _ _ WF) Hsl Hpc).
+  unfold reparse_path in Hre.
+  destruct (split_fq path) as [[p1 q] f].
+  assert (split_params_of s p1 = split_params_of s_http p1) as SP by (destruct Hs as [-> | ->]; reflexivity).
+  rewrite SP. destruct (split_params_of s_http p1) as [pp params].
+  rewrite (hp_hostname ace _ _ _ WF).
+  assert (idna_encode uenc h = Some h) as IE.
+  { unfold idna_encode. destruct (is_nil h) eqn:N; [apply is_nil_true in N; destruct WF; congruence|].
+    rewrite Ah, (wf_enc _ _ _ _ WF). reflexivity. }
+  rewrite IE, (hp_port_of ace _ _ _ WF), Hre, (wf_valid _ _ _ _ WF).
+  pose proof (wf_port _ _ _ _ WF) as Hp.
+  f_equal. f_equal. f_equal.
+  destruct Hs as [-> | ->].
+  - rewrite port_tail_http. change (bytes_eqb s_http s_https) with false. cbv iota.
+    destruct (80 =? p)%Z eqn:E; cbn [is_nil].
+    + apply Z.eqb_eq in E. subst. reflexivity.
+    + destruct (Z.to_N p =? 0)%N eqn:E0; [apply N.eqb_eq in E0; lia | apply Z2N.id; lia].
+  - rewrite port_tail_https. change (bytes_eqb s_https s_https) with true. cbv iota.
+    destruct (443 =? p)%Z eqn:E; cbn [is_nil].
+    + apply Z.eqb_eq in E. subst. reflexivity.
+    + destruct (Z.to_N p =? 0)%N eqn:E0; [apply N.eqb_eq in E0; lia | apply Z2N.id; lia].
+Qed.
+
+End Roundtrip.
